@@ -4,7 +4,6 @@ import (
 	"errors"
 	"fmt"
 	"math"
-	"strconv"
 	"strings"
 
 	"github.com/shopspring/decimal"
@@ -50,15 +49,11 @@ func Abs(ctx *expr.Context, input system.Collection, args ...expr.Expression) (s
 	case system.Decimal:
 		return system.Collection{system.Decimal(decimal.Decimal(value).Abs())}, nil
 	case system.Quantity:
-		quantity := strings.Split(value.String(), " ")
-		// Input type conversion
-		f, err := strconv.ParseFloat(quantity[0], 64)
-		if err != nil {
-			return nil, err
+		// the unit (which may be absent) is unchanged
+		if strings.HasPrefix(value.String(), "-") {
+			return system.Collection{value.Negate()}, nil
 		}
-		// Absolution number
-		res := math.Abs(f)
-		return system.Collection{system.MustParseQuantity(fmt.Sprintf("%f", res), quantity[1])}, nil
+		return system.Collection{value}, nil
 	}
 	return nil, errors.New("input is not a number")
 }
